@@ -8,6 +8,7 @@ mod lazy;
 mod conn;
 mod endpoint;
 mod net;
+mod halves;
 mod port;
 mod robs_deque;
 mod robs_lag;
@@ -205,6 +206,7 @@ fn main() {
         "lazy" => lazy::run(seed, count, &extra, &mut out),
         "rwlock" => rwlock::run(seed, count, &extra, &mut out),
         "watch" => watch::run(seed, count, &extra, &mut out),
+        "halves" => halves::run(seed, count, &extra, &mut out),
         _ => {
             eprintln!("unknown component {comp}");
             std::process::exit(2);
